@@ -402,6 +402,17 @@ func cmdCheck(args []string) {
 	os.MkdirAll(filepath.Join(outDir, "replay"), 0o755)
 	bl := loadBaseline(cone.ID)
 	solverHints = bl.Hints
+	for _, kf := range loadKnown().Findings {
+		if kf.Property == cone.ID {
+			expectedFailures[kf.Obligation] = true
+		}
+	}
+	if *tier == "quick" {
+		// obligations the baseline lists as unclaimed do not decide the property: posed, but with a short budget
+		for n := range bl.Unclaimed {
+			expectedFailures[n] = true
+		}
+	}
 	run := runCone(w, cs, cone, *tier, seed, outDir)
 	known := loadKnown()
 
@@ -606,7 +617,13 @@ func cmdBaseline(args []string) {
 					r.Seconds = r2.Seconds
 				}
 			}
-			if r.Status == "unsat" && r.Seconds < 5.0 && !r.Vacuous {
+			// hysteresis: an obligation the previous baseline did not claim is claimed only when it is clearly fast
+			// (< 3 s alone); one that was claimed stays claimed up to 5 s. Keeps borderline obligations from flipping.
+			limit := 5.0
+			if _, was := old.Unclaimed[r.Obl.Name]; was || old.MinObligations == 0 {
+				limit = 3.0
+			}
+			if r.Status == "unsat" && r.Seconds < limit && !r.Vacuous {
 				n++
 				continue
 			}
